@@ -127,6 +127,10 @@ def _h_param_and_kwargs(n: int) -> bool:
     r3 = to_reaction("A -> " + str(n) + " B; 3; name='r7'", None, "->", Reaction, {})
     r4 = to_reaction(str(n) + " A -> B", None, "->", Reaction, False)
     # a parameter that happens to be zero is a parameter: it is printed and read back
+    # decimal / exponent coefficients (concrete text) are read as floats; integers stay integers
+    d = Reaction.from_string("0.5 A + 1.5e0 B + 2 C -> 0.25 * D", None, globals_=False, checks=())
+    if _plain(d.reac) != {"A": 0.5, "B": 1.5, "C": 2} or _plain(d.prod) != {"D": 0.25} or type(d.reac["C"]) is not int:
+        return False
     z = Reaction({"A": n}, {"B": 1}, 0, checks=())
     zs = str(z)
     zb = Reaction.from_string(zs, None, globals_={})
